@@ -128,13 +128,8 @@ func ruleK6(c *Ctx, id string) {
 		return
 	}
 	var nP, mP *ssa.Parameter
-	for _, p := range mark.Params {
-		if p.Name() == "n" {
-			nP = p
-		}
-		if p.Name() == "m" {
-			mP = p
-		}
+	if len(mark.Params) == 3 {
+		nP, mP = mark.Params[1], mark.Params[2] // markAlloc(super, n, m)
 	}
 	var l1, l2 *bitLoop
 	for i := range loops {
@@ -208,11 +203,18 @@ func ruleK6(c *Ctx, id string) {
 							if cd.X == nil || cd.Y == nil {
 								return false, false
 							}
-							if stripConv(cd.X) == blkno && isStart(cd.Y) && cd.Op == token.GTR {
-								return true, true
+							op, a, b := cd.Op, cd.X, cd.Y
+							if isStart(a) && stripConv(b) == blkno {
+								op, a, b = flipOp(op), b, a
 							}
-							if stripConv(cd.X) == blkno && isStart(cd.Y) && cd.Op == token.NEQ {
+							if stripConv(a) != blkno || !isStart(b) {
+								return false, false
+							}
+							switch op {
+							case token.GTR, token.NEQ: // blkno > start: fresh block on the true edge
 								return true, true
+							case token.LEQ, token.EQL: // blkno <= start: fresh block on the false edge
+								return true, false
 							}
 							return false, false
 						})
@@ -512,10 +514,19 @@ func ruleK3(c *Ctx, id string) {
 		if !leadsPanic {
 			continue
 		}
+		pname := func(p *ssa.Parameter) string {
+			if len(mark.Params) > 2 && p == mark.Params[1] {
+				return "n"
+			}
+			if len(mark.Params) > 2 && p == mark.Params[2] {
+				return "m"
+			}
+			return "?"
+		}
 		if px != nil && py != nil {
-			conds = append(conds, px.Name()+br.Cond.Op.String()+py.Name())
+			conds = append(conds, pname(px)+br.Cond.Op.String()+pname(py))
 		} else if px != nil {
-			conds = append(conds, px.Name()+br.Cond.Op.String()+"K")
+			conds = append(conds, pname(px)+br.Cond.Op.String()+"K")
 		}
 	}
 	has := func(s string) bool {
